@@ -20,7 +20,7 @@ tvars == <<l, viol, execs>>
 Note(v) == IF Len(viol) < 100 THEN Append(viol, v) ELSE viol
 
 Outcomes == {"ok", "err", "end"}
-(* generous linear bound: 2 s + 40 ms per KiB under sanitizers *)
+(* generous linear bound on the CPU time: 2 s + 40 ms per KiB under sanitizers *)
 TimeBound(size) == 2000 + 40 * (size \div 1024)
 
 Bad(ev) == ev.outcome \notin Outcomes \/ ev.ms > TimeBound(ev.size)
